@@ -1,0 +1,80 @@
+//go:build verif
+
+package dnsserver
+
+import (
+	"net"
+	"net/http"
+	"sync"
+	"time"
+
+	"github.com/AdguardTeam/AdGuardDNS/internal/dnsserver/netext"
+	"github.com/ameshkov/dnscrypt/v2"
+	"github.com/miekg/dns"
+	"github.com/quic-go/quic-go"
+)
+
+// Verification hooks for property C08 (response size limits, truncation, OPT
+// handling).  Add-only; compiled only with the "verif" build tag.  Every hook
+// enters the unchanged serving code of one transport at the point where the
+// listener would, with the connection object supplied by the caller.
+
+// VerifC08Normalize calls normalize.
+func VerifC08Normalize(network Network, proto Protocol, req, resp *dns.Msg, maxMsgSize uint16) {
+	normalize(network, proto, req, resp, maxMsgSize)
+}
+
+// VerifC08MaxDNSSize calls maxDNSSize.
+func VerifC08MaxDNSSize(network Network, ednsUDPSize, maxMsgSize uint16) (n int) {
+	return maxDNSSize(network, ednsUDPSize, maxMsgSize)
+}
+
+// VerifC08PackWithPrefix calls packWithPrefix.
+func VerifC08PackWithPrefix(m *dns.Msg, buf []byte) (packed []byte, err error) {
+	return packWithPrefix(m, buf)
+}
+
+// VerifC08ServeUDP processes one UDP datagram the way ServerDNS.serveUDP does
+// after reading it from the socket.
+func VerifC08ServeUDP(s *ServerDNS, buf []byte, conn net.PacketConn, sess netext.PacketSession) {
+	ctx, cancel := s.requestContext()
+	defer cancel()
+
+	ctx = ContextWithRequestInfo(ctx, &RequestInfo{StartTime: time.Now()})
+	s.wg.Add(1)
+	s.serveUDPPacket(ctx, buf, conn, sess)
+}
+
+// VerifC08ServeTCP processes one length-stripped TCP (or TLS) message the way
+// ServerDNS.acceptTCPMsg does after reading it from the connection.
+func VerifC08ServeTCP(s *ServerDNS, buf []byte, conn net.Conn) {
+	ctx, cancel := s.requestContext()
+	defer cancel()
+
+	ctx = ContextWithRequestInfo(ctx, &RequestInfo{StartTime: time.Now()})
+	wg := &sync.WaitGroup{}
+	wg.Add(1)
+	s.serveTCPMessage(ctx, wg, &sync.Mutex{}, buf, conn)
+}
+
+// VerifC08ServeQUICStream processes one DoQ stream.
+func VerifC08ServeQUICStream(s *ServerQUIC, stream quic.Stream, conn quic.Connection) (err error) {
+	ctx, cancel := s.requestContext()
+	defer cancel()
+
+	ctx = ContextWithRequestInfo(ctx, &RequestInfo{StartTime: time.Now()})
+
+	return s.serveQUICStream(ctx, stream, conn)
+}
+
+// VerifC08HTTPHandler returns the DoH handler of s.
+func VerifC08HTTPHandler(s *ServerHTTPS, localAddr net.Addr) (h http.Handler) {
+	return &httpHandler{srv: s, localAddr: localAddr}
+}
+
+// VerifC08ServeDNSCrypt processes one decrypted DNSCrypt query.
+func VerifC08ServeDNSCrypt(s *ServerDNSCrypt, rw dnscrypt.ResponseWriter, r *dns.Msg) (err error) {
+	h := &dnsCryptHandler{srv: s}
+
+	return h.ServeDNS(rw, r)
+}
